@@ -83,10 +83,21 @@ def get_yaml_default_loader():
     return yaml_default_loader
 
 
+def _has_reference_cycle(value, parents=()) -> bool:
+    if not isinstance(value, (dict, list)):
+        return False
+    if any(value is p for p in parents):
+        return True
+    items = value.values() if isinstance(value, dict) else value
+    return any(_has_reference_cycle(v, parents + (value,)) for v in items)
+
+
 def yaml_load(stream):
     import yaml
 
     value = yaml.load(stream, Loader=get_yaml_default_loader())
+    if _has_reference_cycle(value):
+        raise yaml.YAMLError("self-referential aliases are not supported")
     if isinstance(value, dict) and value and all(v is None for v in value.values()):
         first_key = next(iter(value.keys()))
         if len(value) == 1 and isinstance(first_key, str) and stream.strip() == first_key + ":":
